@@ -96,6 +96,11 @@ pub fn ops_for_len(len: i64) -> Vec<COp> {
             out.push(IntoIter { v, front: f, back: b });
         }
     }
+    for how in 0..=6u8 {
+        for n in [0usize, 1, (len.max(0) as usize), (len.max(0) as usize) + 2] {
+            out.push(IntoIterVia { v, how, n });
+        }
+    }
     out
 }
 
